@@ -137,6 +137,14 @@ func check2(c *vlib.Case, s *subject2, p0 C2, kind string) (float64, bool) {
 		} else {
 			c.Count(s.tag+".SDF.sign_ok", 1)
 		}
+		// a field is also a Bounder: every point of the shape's interior lies in the reported box
+		if refSD > 0 {
+			mn, mx := s.sdf.Min(), s.sdf.Max()
+			c.Count(s.tag+".bounds.interior_points", 1)
+			if p.X < mn.X-tol || p.Y < mn.Y-tol || p.X > mx.X+tol || p.Y > mx.Y+tol {
+				c.Violation(s.api+".Min/Max/bounds-contain-interior", fmt.Sprintf("a point %.3g inside the shape lies outside the reported bounds %v..%v", refSD, mn, mx), s.witness(p, nil))
+			}
+		}
 	} else {
 		c.Undecided("sign:reference-within-tolerance-of-boundary")
 	}
